@@ -1498,8 +1498,16 @@ class composite_if(x12_node):
                 self.name, self.refdes)
             errh.ele_error('3', err_str, None, self.refdes)
             valid = False
+        type_list = []
         for i in range(min(len(comp_data), self.get_child_count())):
-            valid &= self.get_child_node_by_idx(i).is_valid(comp_data[i], errh)
+            sub_node = self.get_child_node_by_idx(i)
+            if sub_node.data_ele == '1250':
+                type_list.extend(sub_node.valid_codes)
+            if sub_node.data_ele == '1251' and len(type_list) > 0:
+                # date/time format is selected by the preceding qualifier
+                valid &= sub_node.is_valid(comp_data[i], errh, type_list)
+            else:
+                valid &= sub_node.is_valid(comp_data[i], errh)
         for i in range(min(len(comp_data), self.get_child_count()), self.get_child_count()):
             if i < self.get_child_count():
                 #Check missing required elements
